@@ -35,6 +35,13 @@ Definition enc_res {A} (f : A -> list Z) (r : res A) : list Z :=
   match r with Ok a => f a | Err e => [1 + err_code e] end.
 
 Definition WORK_LIMIT : Z := 4096.
+(* cost of evaluating the model's own [x ^ y] here: Z.pow iterates y times even for x <= 1,
+   where CPython answers at once (exp_work = 0) *)
+Definition eval_cost (a b : bv) : Z :=
+  match a, b with
+  | Cv x, Cv y => if y <=? 1 then 0 else if x <=? 1 then y else y * Z.log2 x
+  | _, _ => 0
+  end.
 
 Definition op_of (z : Z) : option op :=
   nth_error [ADD; MUL; SUB; DIV; SDIV; MOD; SMOD; EXP; SIGNEXTEND; LT; GT; SLT; SGT; EQ; AND; OR; XOR;
@@ -50,7 +57,7 @@ Definition c06_run2 (a : list Z) : list Z :=
           let y := dec_val 1 k2 v2 in
           let ev := mk_ev v1 v2 0 in
           let eb := mk_eb v1 v2 0 in
-          let w := match o with EXP => exp_work (popi x) (popi y) | _ => 0 end in
+          let w := match o with EXP => eval_cost (popi x) (popi y) | _ => 0 end in
           if WORK_LIMIT <? w then [9; w]
           else enc_res (enc_val ev eb) (run2 sebc o x y)
       | None => []
@@ -109,7 +116,7 @@ Definition c06_method (a : list Z) : list Z :=
       | 0 => B (bv_add n x y) | 1 => B (bv_sub n x y) | 2 => B (bv_mul n abs x y)
       | 3 => B (bv_div n abs x y) | 4 => enc_res B (bv_sdiv n abs x y)
       | 5 => B (bv_mod n abs x y) | 6 => B (bv_smod n abs x y)
-      | 7 => if WORK_LIMIT <? exp_work x y then [9; exp_work x y]
+      | 7 => if WORK_LIMIT <? eval_cost x y then [9; exp_work x y]
              else enc_res B (bv_exp n abs abs sebc x y)
       | 8 => B (bv_lshl n x y) | 9 => B (bv_lshr n x y) | 10 => B (bv_ashr n x y)
       | 11 => B (bv_and n x y) | 12 => B (bv_or n x y) | 13 => B (bv_xor n x y)
